@@ -35,7 +35,7 @@ def run_block(ev: ConstEval, stmts: List[ast.stmt], env: Dict[str, Any],
                 return out
         elif isinstance(st, ast.For) and not st.orelse:
             seq = ev.ev(st.iter, env)
-            if not isinstance(seq, (tuple, list)) or isinstance(seq, (Sym, CallVal)):
+            if not isinstance(seq, (tuple, list, bytes, str)) or isinstance(seq, (Sym, CallVal)):
                 raise AnalysisError(f"mini-interpreter: loop over a non-constant sequence `{src(st.iter)}` (line {st.lineno})")
             broke = False
             for item in seq:
@@ -65,6 +65,10 @@ def run_block(ev: ConstEval, stmts: List[ast.stmt], env: Dict[str, Any],
                 vals = [ev.ev(v, env) for v in st.value.elts]
                 for t_, v_ in zip(tgt.elts, vals):
                     env[ap(t_)] = v_
+            elif isinstance(tgt, ast.Tuple) and isinstance(ev.ev(st.value, env), (tuple, list)) and \
+                    len(ev.ev(st.value, env)) == len(tgt.elts) and all(ap(t_) for t_ in tgt.elts):
+                for t_, v_ in zip(tgt.elts, ev.ev(st.value, env)):
+                    env[ap(t_)] = v_
             else:
                 raise AnalysisError(f"mini-interpreter: unsupported assignment `{src(st)}`")
         elif isinstance(st, ast.AnnAssign) and st.value is not None and isinstance(st.target, ast.Name):
@@ -82,6 +86,11 @@ def run_block(ev: ConstEval, stmts: List[ast.stmt], env: Dict[str, Any],
                 continue
             if isinstance(v, ast.Call) and (ap(v.func) or "").split(".")[-1] in ignore_calls:
                 continue
+            if isinstance(v, ast.Call) and getattr(ev, "call_hook", None) is not None:
+                # an effect the caller's hook models (it folds the call to a constant and records the effect)
+                r_ = ev.ev(v, env)
+                if not isinstance(r_, (Sym, CallVal)):
+                    continue
             raise AnalysisError(f"mini-interpreter: unsupported expression statement `{src(st)}`")
         elif isinstance(st, ast.Pass):
             continue
